@@ -1,6 +1,6 @@
 """Property -> what decides it (units under contract, extra obligation groups, covers, bounded native oracle)."""
 from __future__ import annotations
-from . import native_ode, rates, templates, conservation
+from . import native_ode, native_net, rates, templates, conservation
 
 ODE_UNIT = ("contracts.ode", "prepare_ode_content")
 
@@ -57,13 +57,46 @@ PROPERTIES = {
         "level": "proof",
         "units": [("contracts.rates", "assign_rates")],
         "extra": [rates.lemma_adjacent_windows, templates.rate_array_scan_items],
+        "oracle": native_net.oracle("C06"),
         "trusted_base": ["assumed contract of rateexpr (C05/C11): a C expression", "KROME window syntax and k zero-initialisation: see contracts/templates.py"],
         "contract_files": ["rates.py"],
+    },
+    "C11": {
+        "level": "proof",
+        "units": [("contracts.grain_rates", "grain_rateexpr")],
+        "trusted_base": ["model formulae written from Hasegawa & Herbst 1993 / Hasegawa, Herbst & Leung 1992 / Roberts et al. 2007 (UCLCHEM v1.3) in contracts/grain_rates.py",
+                         "exp, pow, sqrt, fmax uninterpreted; all physical parameters used as divisors positive; mass number, binding energy > 0, yield >= 0 symbolic",
+                         "eb_<alias> constants are bound to Species.binding_energy by naunet_constants (C10)"],
+        "contract_files": ["grain_rates.py", "laws_gas.py"],
     },
     "C13": {
         "level": "proof",
         "units": [ODE_UNIT],
         "oracle": native_ode.oracle_for("C13"),
         "trusted_base": _ode_trusted,
+    },
+    "C07": {
+        "level": "other",
+        "units": [],
+        "oracle": native_net.oracle("C07"),
+        "explanation": "bounded stand-in only in this round: lines are encoded from abstract reactions by encoders written from the format descriptions and decoded by the real code (all six formats, full-width names, all codes, blank/comment/directive lines interleaved). The slicing/splitting decoders are not yet under contract (needs slicing of structured strings in pyvc); nothing is counted as proved.",
+    },
+    "C14": {
+        "level": "other",
+        "units": [],
+        "oracle": native_net.oracle("C14"),
+        "explanation": "bounded stand-in only: seeded random edit histories (add/remove by index, list, instance/allowed/required/dedup/reindex) checked after every step against a reference model recomputed from the surviving reactions, plus setter-vs-constructor agreement. The representation invariant is not yet under contract (set-valued fields over Species hashing); nothing is counted as proved.",
+    },
+    "C15": {
+        "level": "other",
+        "units": [],
+        "oracle": native_net.oracle("C15"),
+        "explanation": "bounded stand-in only: random reaction lists with permuted species, window/type-only variants and long runs, four modes, compared with an O(n^2) pairwise reference incl. the removal round trip; nothing is counted as proved.",
+    },
+    "C18": {
+        "level": "other",
+        "units": [],
+        "oracle": native_net.oracle("C18"),
+        "explanation": "bounded stand-in only: networks read from kida/umist/leeds/naunet lines are written in the native format and read back twice; every field compared at the printed precision; nothing is counted as proved.",
     },
 }
